@@ -37,7 +37,7 @@ RULE = ('A: per (SMTP|LMTP, PIPELINING on/off, n=1..3): every single and double 
         'STARTTLS (required or not) and AUTH stages with every single deviation; refused connection; 2 envelopes on a '
         're-used connection with every single deviation in either transaction.  B: 3 pipe relay classes x per-recipient mode x '
         'exit status {0,1,75,255} x 7 output shapes x 1..2 recipients (+ one failing call among two).  C: HTTP status '
-        '{200,204,400,404,500,503} x X-Smtp-Reply {absent,250,450,550,malformed} + refused, dropped, truncated.  D: resolver '
+        '{200,204,302,400,404,500,503} x X-Smtp-Reply {absent,250,450,550,malformed} + refused, dropped, truncated.  D: resolver '
         'answers {MX list, no MX but A, nothing, error} x attempts 0..3 x recipient shapes.  Every script is non-trivial '
         'except the all-success baselines.')
 ASSUMPTIONS = ['in-memory sockets, fake TLS, fake Popen, scripted HTTP origin, stub DNS resolver (environment by definition)',
@@ -271,7 +271,7 @@ def pipe_cases():
 
 
 # ------------------------------------------------------------------ part C (http)
-HTTP_STATUS = [(200, 'OK'), (204, 'No Content'), (400, 'Bad Request'), (404, 'Not Found'), (500, 'Internal Server Error'), (503, 'Service Unavailable')]
+HTTP_STATUS = [(200, 'OK'), (204, 'No Content'), (302, 'Found'), (400, 'Bad Request'), (404, 'Not Found'), (500, 'Internal Server Error'), (503, 'Service Unavailable')]
 HTTP_REPLY = [None, '250; message="2.6.0 accepted"', '450; message="4.2.0 later"', '550; message="5.1.1 nope"', 'garbage']
 
 
